@@ -197,6 +197,9 @@ func (t *tr) pcs(e ast.Expr, cond bool, hoist *[]*ast.CallExpr) []string {
 		_, _, in := t.indexParts(e)
 		return append(out, "!"+in)
 	case *ast.SliceExpr:
+		if t.reuseSlice(e) {
+			return nil // `s[:0]`, `s[len(s):len(s):cap(s)]` never panic
+		}
 		out := append(t.pcs(e.X, cond, hoist), t.pcs(e.Low, cond, hoist)...)
 		if e.High != nil || e.Max != nil || e.Low == nil {
 			t.fail(e, "slice expression (only s[a:])")
@@ -344,6 +347,9 @@ func (t *tr) stmtExprs(s ast.Stmt) []ast.Expr {
 			if _, ok := l.(*ast.IndexExpr); ok {
 				es = append(es, l)
 			}
+			if _, ok := l.(*ast.StarExpr); ok {
+				es = append(es, l)
+			}
 		}
 		for _, r := range s.Rhs {
 			if _, isFn := r.(*ast.FuncLit); !isFn {
@@ -353,6 +359,13 @@ func (t *tr) stmtExprs(s ast.Stmt) []ast.Expr {
 		return es
 	case *ast.IncDecStmt:
 		return []ast.Expr{s.X}
+	case *ast.ExprStmt:
+		// a call statement (mut.go): its arguments are evaluated, the call itself is bound by the statement
+		if ce, ok := s.X.(*ast.CallExpr); ok {
+			if id, isId := ce.Fun.(*ast.Ident); !isId || id.Name != "panic" {
+				return ce.Args
+			}
+		}
 	case *ast.IfStmt:
 		if s.Init == nil {
 			return []ast.Expr{s.Cond}
@@ -577,7 +590,31 @@ func (t *tr) loopState(from, to token.Pos, nodes ...ast.Node) []stateVar {
 		case *ast.IncDecStmt:
 			targets = []ast.Expr{n.X}
 		}
+		if st, isStmt := n.(ast.Stmt); isStmt && (t.spec.copies != "" || len(t.spec.mut) > 0) {
+			// declared copies and calls of functions that assign through a parameter (mut.go)
+			w := t.stmtWrites(st)
+			for k, ty := range w {
+				found[k] = ty
+				poss[k] = token.NoPos
+			}
+			if len(w) > 0 {
+				return true
+			}
+		}
 		for _, l := range targets {
+			if tgt, ok := t.derefTarget(l); ok {
+				// `*q = ..` through a pointer whose target is known on this path (mut.go)
+				if tgt != nil {
+					found[viewName(tgt.a.name, tgt.path)] = tgt.ty
+					poss[viewName(tgt.a.name, tgt.path)] = token.NoPos
+				}
+				continue
+			}
+			if a, path, ok := t.mutField(stripIndex(l)); ok {
+				found[viewName(a.name, path)] = a.views[viewName(a.name, path)].ty
+				poss[viewName(a.name, path)] = token.NoPos
+				continue
+			}
 			for {
 				if ix, ok := l.(*ast.IndexExpr); ok {
 					l = ix.X
@@ -797,6 +834,22 @@ func stType(vs []stateVar) string {
 
 // newLoop translates a loop of the second-round subset (see the head of this file).
 func (t *tr) newLoop(s ast.Stmt, cont func() string) string {
+	// a pointer retargeted in a loop has no static target afterwards (mut.go)
+	ast.Inspect(s, func(n ast.Node) bool {
+		if as, ok := n.(*ast.AssignStmt); ok {
+			for _, l := range as.Lhs {
+				if id, isId := l.(*ast.Ident); isId {
+					if _, isAlias := t.alias[t.p.info.Uses[id]]; isAlias {
+						t.fail(as, "the pointer %s is given a target inside a loop (its target must be statically known)", id.Name)
+					}
+				}
+			}
+		}
+		return true
+	})
+	if t.err != nil {
+		return "?"
+	}
 	sh, ok := t.shapeOf(s)
 	if !ok || t.err != nil {
 		return "?"
@@ -1007,6 +1060,7 @@ func (t *tr) newLoop(s ast.Stmt, cont func() string) string {
 		ret: retf,
 	}
 	var body string
+	entryPS := t.snapshot() // what the body initialises is not known after the loop (it may run zero times)
 	if sh.kind == "while" {
 		postK := func() string {
 			if sh.post == nil {
@@ -1030,6 +1084,7 @@ func (t *tr) newLoop(s ast.Stmt, cont func() string) string {
 	if t.err != nil {
 		return "?"
 	}
+	t.restore(entryPS)
 	// free variables: everything used that is neither state nor declared inside the loop
 	isState := map[string]bool{}
 	for _, v := range state {
@@ -1200,6 +1255,14 @@ func (t *tr) assignElem(lhs ast.Expr, tok token.Token, rhs ast.Expr, pos token.P
 	case *ast.IndexExpr:
 		if !t.isArr(l.X) {
 			return "", false
+		}
+		if _, _, isMut := t.mutField(l.X); isMut && tok != token.DEFINE {
+			if !t.wantOpt(lhs) {
+				return "?", true
+			}
+			val := value(t.typeOf(lhs))
+			arr, nat, _ := t.indexParts(l)
+			return fmt.Sprintf("let %s := %s.setIfInBounds %s %s\n", arr, arr, nat, val), true
 		}
 		id, ok := l.X.(*ast.Ident)
 		v, _ := t.p.info.Uses[id].(*types.Var)
